@@ -891,7 +891,7 @@ func TestC20(t *testing.T) {
 		}
 		kC20.Run(t, ev, perShard(pick(300, 12000)))
 		kC20GCS.Run(t, ev, perShard(pick(60, 6000)))
-		kC20Lock.Run(t, ev, perShard(pick(24, 800)))
+		kC20Lock.Run(t, ev, perShard(pick(24, 400)))
 		ev.requireClasses("C20:overlapping-calls-observed", "C20:linearizable", "C20:with-reload-or-unload", "C20:with-matchtx",
 			"C20:goroutines=32", "C20:gcs-concurrent-queries", "C20:cold-message-invariant-checked")
 	})
